@@ -20,7 +20,9 @@ META = {
     "footprint bbox contains them.  Tied to /repo each run: exact correspondence of snap_grid (exhaustive "
     "small domain), from_bbox and compute_output_geobox with the pyproj-derived inputs captured from the real "
     "run, plus an independent pyproj oracle projecting every source pixel corner on real CRS pairs.",
-    "note": "Partial: curvature of real projections (that the buffered, 100-point densified footprint's bbox "
+    "note": "Model follows the code incl. the repair on branch fix-C11 (footprint buffer uses the absolute pixel "
+    "size).  Known finding int-shape-longest-side-plus-one (integer shape + snapping anchor gives n+1).  "
+    "Partial: curvature of real projections (that the buffered, 100-point densified footprint's bbox "
     "contains every projected pixel) is a hypothesis, sampled by the oracle inside the CRSs' areas of use; "
     "pyproj/PROJ, shapely buffer and the UTM database query are trusted parameters; IEEE rounding sampled.",
     "technique": "Lean 4 proof over hand model + differential correspondence with real code + pyproj oracle",
@@ -160,11 +162,13 @@ def snap_float_part(R: Run, mods):
         fx0, fx1, fr, ft = F(x0), F(x1), F(res), F(tol)
         lo = F(tx) if res > 0 else F(tx) + n * fr
         hi = F(tx) + n * fr if res > 0 else F(tx)
-        ulp = F(max(abs(x0), abs(x1), r)) * F(2, 2 ** 52)
-        slack = F(r) * F(1, 10 ** 9) + 4 * ulp
+        # rounding allowance: a few ulps of the coordinates (and of the quotient for decisions), nothing more,
+        # so that a hidden "snap within 1e-10" shows up
+        ulp = F(max(abs(x0), abs(x1), r)) * F(1, 2 ** 52)
+        slack = 4 * ulp
         ok = lo <= fx0 + ft * F(r) + slack and hi >= fx1 - ft * F(r) - slack and n >= 1
         R.oracle(ok, "snap-cover", case, f"grid [{float(lo)}, {float(hi)}] n={n} does not cover [{x0}, {x1}] up to tol", sig="snapf")
-        if not near_decision(fx0, fx1, fr, off, ft, eps=F(1, 10 ** 9) + ulp / F(r)):
+        if not near_decision(fx0, fx1, fr, off, ft, eps=8 * ulp / F(r) + F(1, 2 ** 50)):
             wtx, wn = snap_exact(fx0, fx1, fr, off, ft)
             R.oracle(n == wn and abs(F(tx) - wtx) <= slack, "snap-grid-exact", case,
                      f"snap_grid -> ({tx}, {n}) but exact arithmetic gives ({float(wtx)}, {wn})", sig="snapf")
@@ -541,6 +545,23 @@ def float_part(R: Run, mods):
         try:
             g = make_source(R, mods, lon, lat, src_crs, extent, npx, rotated)
         except Exception:  # pylint: disable=broad-except
+            continue
+        # the whole source (not just its centre) must lie inside the areas of use of both CRSs
+        try:
+            sny, snx = g.shape
+            X, Y = np.meshgrid(np.linspace(0, snx, 13), np.linspace(0, sny, 13))
+            sa = g.affine
+            ll = Transformer.from_crs(g.crs.proj, "EPSG:4326", always_xy=True).transform(
+                (sa.a * X + sa.b * Y + sa.c).ravel(), (sa.d * X + sa.e * Y + sa.f).ravel())
+            lons, lats = np.asarray(ll[0]), np.asarray(ll[1])
+            inside = (np.isfinite(lons).all() and np.isfinite(lats).all() and np.abs(lats).max() < (79 if utm_involved else 83)
+                      and np.abs(lons).max() < 179 and (not utm_involved or lons.max() - lons.min() < 14))
+            if src_crs == "EPSG:6933" or dst == "EPSG:6933":
+                inside = inside and np.abs(lats).max() < 80
+        except Exception:  # pylint: disable=broad-except
+            inside = False
+        if not inside:
+            R.count("float:skipped-outside-area-of-use")
             continue
         k = rng.random()
         shape = None
